@@ -119,7 +119,7 @@ func scanGoroutines(f func(hdr, blk []byte) bool) bool {
 func (d *VerifDurable) C05StartMetaGC() *VerifC05MetaGC {
 	cfg := d.cfg
 	cfg.MetadataGCInterval = 5 * time.Millisecond
-	cfg.MetadataUndeleteTime = 0
+	cfg.MetadataUndeleteTime = -2 * time.Second // cutoff = now + 2s: deletion times are stored with one-second resolution
 	c := &Curator{config: &cfg, stateHandler: d.SH, iAmLeader: true}
 	c.iAmLeaderCond.L = &c.lock
 	m := &VerifC05MetaGC{c: c}
@@ -161,7 +161,14 @@ func (m *VerifC05MetaGC) Finish() {
 		blocked := scanGoroutines(func(hdr, blk []byte) bool {
 			return bytes.HasPrefix(hdr, m.gid) && bytes.Contains(blk, tag) && bytes.Contains(blk, []byte("blockIfNotLeader"))
 		})
-		busy := scanGoroutines(func(hdr, blk []byte) bool { return bytes.Contains(blk, fin) })
+		// busy: a FinishDelete proposal under way, or any goroutine of the loop (the loop itself, or the
+		// not-yet-started wrapper of its `go FinishDeleteBefore(...)`) that is not parked at blockIfNotLeader
+		busy := scanGoroutines(func(hdr, blk []byte) bool {
+			if bytes.Contains(blk, fin) {
+				return true
+			}
+			return bytes.Contains(blk, tag) && !bytes.Contains(blk, []byte("blockIfNotLeader"))
+		})
 		if blocked && !busy {
 			return
 		}
